@@ -98,7 +98,7 @@ def rule_exits(ctx, repo):
     ctx.check(ok, "C17.success", "TDS.run/succeed", "succeed=True only when not busted and dae.t == config.tf exactly",
               "TDS.run can report success without reaching the end time (or while busted)", f.W(succ_true[0]))
     # gate
-    gate = f.tests(lambda c: c.replace(" ", "") == "system.PFlow.convergedisFalse")
+    gate = f.tests("system.PFlow.converged is False")
     ok = bool(gate) and any(f.g.guarded_by(r, gate[0], "true") for r in f.returns()) and \
         f.g.must_pass(f.g.entry, f.calls("self.init")[0], gate)[0] if f.calls("self.init") else False
     ctx.check(ok, "C17.gate", "TDS.run", "refuses to run when the power flow did not converge",
@@ -286,7 +286,7 @@ def rule_gating(ctx, repo):
 def _precheck_sound(repo):
     f = F.method(repo, "EIG", "_pre_check", EIG)
     calls = f.calls("TDS.init")
-    gates = f.tests(lambda c: c.replace(" ", "") in ("system.PFlow.convergedisFalse", "notsystem.PFlow.converged"))
+    gates = f.tests(("system.PFlow.converged is False", "not system.PFlow.converged"))
     if not gates:
         return False
     for c in calls:
@@ -350,13 +350,60 @@ def rule_newton_exits(ctx, repo):
               "NaN exit of the power-flow Newton loop removed or sets success", p.W())
 
 
+SWALLOW = {"max": "the builtin max() returns its first argument when the other is NaN (`max(0, nan) == 0`)",
+           "min": "the builtin min() returns its first argument when the other is NaN",
+           "np.fmax": "np.fmax ignores NaN", "np.fmin": "np.fmin ignores NaN", "np.nanmax": "np.nanmax ignores NaN",
+           "np.nanmin": "np.nanmin ignores NaN", "np.nan_to_num": "np.nan_to_num replaces NaN"}
+RESIDUAL_SOURCES = ("dae.f", "dae.g", "self.inc", "inc", "self.res", "dae.x", "dae.y")
+
+
+def rule_nan_measure(ctx, repo):
+    """The quantity compared with the tolerance must be NaN-propagating: on the def-use slice from the residual / increment
+    arrays to the convergence measure no reducer that can swallow a NaN may occur (the NaN exits tested above never fire
+    otherwise)."""
+    for cls, meth, path, measure in (("PFlow", "nr_step", PFLOW, None), ("ImplicitIter", "step", DAEINT, "mis"),
+                                     ("TDS", "test_init", TDS, None)):
+        f = F.method(repo, cls, meth, path)
+        fn = f.fn
+        # names tainted by the residual arrays (forward closure over local assignments)
+        tainted = set()
+        changed = True
+
+        def reads_source(e):
+            for x in ast.walk(e):
+                d = dotted(x) if isinstance(x, (ast.Attribute, ast.Name)) else None
+                if d and (any(d == s_ or d.endswith("." + s_) for s_ in RESIDUAL_SOURCES) or d in tainted):
+                    return True
+            return False
+        while changed:
+            changed = False
+            for st in walk_noscope(fn):
+                if isinstance(st, ast.Assign) and reads_source(st.value):
+                    for t in st.targets:
+                        for x in ast.walk(t):
+                            if isinstance(x, ast.Name) and x.id not in tainted:
+                                tainted.add(x.id)
+                                changed = True
+        bad = []
+        n_red = 0
+        for c in calls_in(fn):
+            d = dotted(c.func)
+            if d in SWALLOW and any(reads_source(a) for a in c.args):
+                n_red += 1
+                bad.append((c, "`%s`: %s" % (src(c), SWALLOW[d])))
+        ctx.check(not bad, "C17.nan", "%s.%s/measure" % (cls, meth), "no NaN-swallowing reducer between the residuals and the convergence "
+                  "measure (%d residual-derived names followed)" % len(tainted),
+                  "; ".join(b[1] for b in bad[:2]) + " -- a NaN residual yields a finite measure: the NaN exit cannot fire and the "
+                  "iteration can be reported as converged", f.W(bad[0][0]) if bad else f.W())
+
+
 def run(ctx):
     ctx.rule("C17.exit", "every unsuccessful return of PFlow.run, TDS.run, TDS.test_init, EIG.run, System.setup passes an "
              "exit_code increment (frozen exception: repeated setup())", 9)
     ctx.rule("C17.success", "success flags are dominated by the routine's own residual / termination test", 6)
     ctx.rule("C17.gate", "dependent computations are dominated by a PFlow.converged / is_setup / pre-check gate with early return", 6)
     ctx.rule("C17.aggregate", "CLI aggregation: failed load, None system, lists, missing file, parse failures", 7)
-    ctx.rule("C17.nan", "NaN exits precede state updates / success", 2)
+    ctx.rule("C17.nan", "NaN exits precede state updates / success; the convergence measure is NaN-propagating", 5)
     ctx.rule("C17.sentinel", "linear-solver NaN sentinel propagation (rules shared with C16)", 4)
     ctx.assume("that every ill-posed input actually triggers one of these exits is a runtime fact: declined")
     repo = Repo()
@@ -365,6 +412,7 @@ def run(ctx):
     rule_gating(ctx, repo)
     rule_flag_reset(ctx, repo)
     rule_newton_exits(ctx, repo)
+    rule_nan_measure(ctx, repo)
     # sentinel propagation: reuse the C16 sibling rules under this property's name
     before = len(ctx.results)
     c16.rule_suitesparse(ctx, repo)
